@@ -25,6 +25,10 @@ DECL_SNIPPETS = [
     "import \"libfoo.so\" { int ext(int a); };", "const int N = 4; int[0,N-1] idx; bool tab[N] = { true, false, true, false };",
     "void sw(int v) { }", "gantt { G(i:int[0,1]): true -> i; }", "dynamic Dt(int p); void sp() { spawn Dt(1); }",
     "before_update { a = 1 } after_update { a = 2 }",
+    "void ex() { exit(); }", "dynamic Dt(int p); void sp2() { int n = numOf(Dt); spawn Dt(n); exit(); }",
+    "int nested() { return forall (i : int[0,1]) exists (j : int[0,1]) (sum (k : int[0,1]) k) > i + j; }",
+    "clock cx; void resetc() { cx = 0; } double dd2 = fabs(-1.5) + pow(2.0, 3) + random(3);",
+    "typedef int[0,3] id_t; chan cc2[id_t]; int[0,1] mat[id_t][2]; void arrf(int &a[2], const int b[id_t]) { a[0] = b[1]; }",
 ]
 OLD_DECL = ["int a; const N 3; chan c; clock x;", "int a[3]; int b := 2; urgent chan u;"]
 PARAMS = ["int a", "const int a, int &b", "clock &x, chan &c, bool b", "int[0,3] k, broadcast chan &bc", "", "int a[2], const int[0,N] q",
@@ -113,7 +117,17 @@ def query_cases(rng, n):
 
 def model_cases(rng, n):
     out = []
-    for i, (tag, xml) in enumerate(workloads.hostile_models(rng, n)):
+    hm = workloads.hostile_models(rng, n)
+    # declaration snippets (functions, dynamic templates, priorities, ...) inside whole models: type checker included
+    for j in range(max(20, n // 6)):
+        snip = rng.choice(DECL_SNIPPETS)
+        if rng.random() < 0.5:
+            snip, _ = faults.token_faults(snip, rng, rng.choice([1, 1, 2]))
+        if rng.random() < 0.7:
+            hm.append(("snippet-global", xmlgen.simple_model(decl=snip)))
+        else:
+            hm.append(("snippet-local", xmlgen.simple_model(tdecl=snip)))
+    for i, (tag, xml) in enumerate(hm):
         x = rng.random()
         newxta = 1 if rng.random() < 0.9 else 0
         if x < 0.70:
@@ -127,11 +141,45 @@ def model_cases(rng, n):
     return out
 
 
+def dom_cases(rng, quick):
+    """Systematic element / attribute faults on rich base documents (all element kinds incl. LSC and queries)."""
+    bases = []
+    tm = dict(workloads.test_models())
+    for name in ("lsc_example.xml", "smc_non-deterministic_input2.xml", "channel_priorities.xml"):
+        if name in tm:
+            bases.append(tm[name])
+    mg = GM.ModelGen(rng, 2, 3, 4)
+    for _ in range(2 if quick else 12):
+        m = mg.model(branchpoints=True)
+        x = GM.render_xml(m, rng)
+        if "<queries>" not in x:
+            x = x.replace("</nta>", workloads.RICH_QUERIES + "</nta>")
+        bases.append(x)
+    out = []
+    for b in bases:
+        for tag, xml in workloads.systematic_dom_faults(b, rng):
+            out.append((tag, Case("d%d" % len(out), [Step("parse_doc", 0, rng.choice(["xml_buffer", "xml_buffer", "xml_file", "xml_fd"]), 1, 0, xml)], timeout=30)))
+    if quick and len(out) > 2500:
+        out = rng.sample(out, 2500)
+    return out
+
+
+XTA_SPECIAL = ["process T() { } system T;", "process T() { state A; init A; } system T;", "system T;", "", ";", "process T { state A; init A; trans A -> A { }; } system T;",
+               "process T() { state A { x <= 3 }; init A; } system T;", "int a; process T() { state A, B; commit A; urgent A; init A; } system T;",
+               "process T() { state A; branchpoint B; init A; trans A -> B { }, B -> A { probability 1; }; } system T;",
+               "process T() { state A; init B; } system T;", "process T() { state A; init A; trans -> A { }; } system T;",
+               "chan c; process T() { state A; init A; trans A -> A { sync c!; }, -> A { sync c?; }; } T1 = T(); T2 = T(); system T1 < T2;"]
+
+
 def xta_cases(rng, n):
     mg = GM.ModelGen(rng, 3, 5, 8)
     out = []
     for i in range(n):
-        xta = GM.render_xta(mg.model(), rng)
+        if rng.random() < 0.1:
+            snip = rng.choice(DECL_SNIPPETS) if rng.random() < 0.6 else ""
+            xta = snip + "\n" + rng.choice(XTA_SPECIAL)
+        else:
+            xta = GM.render_xta(mg.model(), rng)
         nf = rng.choice([0, 1, 1, 2, 3])
         if nf:
             xta, _ = faults.token_faults(xta, rng, nf)
@@ -258,7 +306,7 @@ def run(rep, tier, seed):
     rng = random.Random(seed * 1000003 + 1)
     quick = tier == "quick"
     k = 1 if quick else 20
-    groups = [("models", model_cases(rng, 3000 * k)), ("parts", part_cases(rng, 3000 * k)),
+    groups = [("dom", dom_cases(rng, quick)), ("models", model_cases(rng, 3000 * k)), ("parts", part_cases(rng, 3000 * k)),
               ("queries", query_cases(rng, 1200 * k)), ("xta", xta_cases(rng, 800 * k))]
     classes = {}
     exc_classes = {}
